@@ -147,7 +147,7 @@ add("C14", "exploration", [
 ])
 
 add("C04", "exploration", [
-    {"name": "c04-configs", "bin": "c04", "pkg": ZZ + "c04", "run": "^TestVerifC04Configurations$",
+    {"name": "c04-configs", "bin": "c04", "pkg": ZZ + "c04", "run": "^TestVerifC04(Configurations|CombinerContention)$",
      "shards": {"quick": 12, "thorough": 16}, "checks": {"quick": 6, "thorough": 250},
      "timeout": {"quick": 900, "thorough": 3300}, "shrinktime": "60s"},
 ])
